@@ -15,6 +15,7 @@ From Coq Require Import List ZArith Bool.
 From Verif Require Import C15.Model C15.Spec C15.Proofs C15.Witness C15.Faults C15.FaultsProofs.
 From Verif Require Import C15.Keys C15.KeysProofs.
 From Verif Require Import C15.Utf8 C15.Utf8Proofs C15.Entry C15.EntryProofs.
+From Verif Require Import C15.Notify C15.NotifyProofs.
 Import ListNotations.
 Open Scope Z_scope.
 
@@ -750,3 +751,207 @@ Example C15_non_utf8_history :
 Proof.
   split; [vm_compute; repeat constructor; discriminate|]. vm_compute. repeat split; reflexivity.
 Qed.
+
+(* ====================================================================== *)
+(* 9. The engine-notification step of discovery.Run (Notify.v).
+
+   Before it aggregates a batch, Run tells the engine (PUT /on_haproxy_error on
+   127.0.0.1:ENGINE_ADMIN_PORT) which transactions of the batch HAProxy answered
+   itself (non-internal records with a status of HaproxyInternalErrors).  The
+   request is an effect on the outside world whose outcome the environment
+   chooses: [nbs : list nbatch] is a history of section 6 (any stream, any
+   batching, any set of failing writes, a restart before any flush, any oracle)
+   in which every flush also carries "ENGINE_ADMIN_PORT is set" and an outcome
+   [nout]: answered 200 / answered something else / connection refused /
+   connection lost before the reply.  [nstate false] is the code as it is (a
+   failed notification is logged); [nstate true] the variant that returns the
+   transport error from Run before aggregating. *)
+
+(* (a) Frame.  The outcome of the notification — and whether the admin port is
+   configured at all — never changes the statistics: the (memory, file) state
+   after every flush and what Run returns are those of section 6 for the same
+   flushes, hence two histories that differ only in the notification dimension
+   are indistinguishable, flush by flush. *)
+Theorem C15_notification_outcome_never_changes_the_statistics : forall nbs,
+  nstate false nbs = fstate true (map nb_f nbs) /\
+  ntrace false sys0 nbs = ftrace true sys0 (map nb_f nbs) /\
+  map (nrun_result false) nbs = map (fun fb => nres_of (run_result fb)) (map nb_f nbs) /\
+  (forall nbs', map nb_f nbs = map nb_f nbs' ->
+     nstate false nbs = nstate false nbs' /\
+     ntrace false sys0 nbs = ntrace false sys0 nbs' /\
+     map (nrun_result false) nbs = map (nrun_result false) nbs').
+Proof.
+  intros nbs. split; [exact (nstate_false nbs)|]. split; [exact (ntrace_false nbs sys0)|].
+  split; [exact (nresults_false nbs)|]. exact (frame nbs).
+Qed.
+Print Assumptions C15_notification_outcome_never_changes_the_statistics.
+
+(* spelled out: whatever the engine's admin port did, the in-memory request
+   counts add up to the number of non-internal records of all surviving flushes
+   (section 6: only a restart drops flushes, those not yet written), per
+   endpoint the count is the sum of its status counts, per status the counts add
+   up to the records with that status, the duration sums are the sums of the
+   durations, the per-consumer counts add up too; memory is [run] of the
+   surviving flushes, so every theorem of sections 1-5 applies to it *)
+Theorem C15_conservation_under_notification_outcomes : forall nbs,
+  let fbs := map nb_f nbs in
+  batches_ok (map fb_batch fbs) ->
+  let s := mem (nstate false nbs) in let bs := survivors fbs in
+  s = run bs /\
+  disk (nstate false nbs) = persist (run (durable fbs)) /\
+  count_where everywhere (sE s) = nrec bs everywhere /\
+  (forall k, cnt_of (mfind key_eqb k (sE s))
+             = sum_where (fun ks => key_eqb (fst ks) k) (sES s)) /\
+  (forall st, sum_where (fun ks => snd ks =? st) (sES s)
+              = nrec bs (fun r => r_status r =? st)) /\
+  dsum_where everywhere (sE s) = fold_right Z.add 0 (map r_dur (all_accepted bs)) /\
+  count_where everywhere (sC s) = nrec bs everywhere /\
+  (no_restart (map fb_batch fbs) -> bs = map fb_batch fbs).
+Proof.
+  intros nbs. cbn zeta. intros H. rewrite (nstate_false nbs).
+  destruct (effective (map nb_f nbs)) as [M D].
+  split; [exact M|]. split; [exact D|].
+  exact (C15_conservation_under_failed_writes (map nb_f nbs) H).
+Qed.
+Print Assumptions C15_conservation_under_notification_outcomes.
+
+(* (b) When the request is made, and what each variant does with its outcome:
+   a report is sent exactly when the port is set and the batch holds a
+   non-internal record with an HAProxy-internal status; the code as it is never
+   aborts and returns what section 6 says; the variant aborts exactly when such a
+   report meets a transport failure, and then leaves memory and file as the
+   (possible) restart left them. *)
+Theorem C15_notification_step : forall v y nb,
+  (reports nb = true <->
+     nb_port nb = true /\
+     exists r, In r (b_recs (fb_batch (nb_f nb))) /\ r_internal r = false /\
+               In (r_status r) haproxy_internal_errors) /\
+  aborts false nb = false /\
+  nrun_result false nb = nres_of (run_result (nb_f nb)) /\
+  (aborts v nb = true <-> v = true /\ reports nb = true /\ transport_error (nb_out nb) = true) /\
+  (aborts v nb = true ->
+     nrun_result v nb = NRunNotifyError /\
+     disk (nstep v y nb) = disk y /\
+     mem (nstep v y nb) = (if b_restart (fb_batch (nb_f nb)) then restore (disk y) else mem y)) /\
+  (aborts v nb = false -> nstep v y nb = fstep true y (nb_f nb)).
+Proof.
+  intros v y nb. split.
+  { unfold reports. rewrite andb_true_iff, existsb_exists. split.
+    - intros [P [r [I F]]]. split; [exact P|]. exists r. split; [exact I|].
+      unfold failed_txn in F. apply andb_true_iff in F. destruct F as [F1 F2].
+      split; [now apply negb_true_iff in F1|].
+      apply existsb_exists in F2. destruct F2 as [c [Ic Ec]].
+      apply Z.eqb_eq in Ec. now rewrite Ec.
+    - intros [P [r [I [N S]]]]. split; [exact P|]. exists r. split; [exact I|].
+      unfold failed_txn. rewrite N. cbn [negb andb]. apply existsb_exists.
+      exists (r_status r). split; [exact S | apply Z.eqb_refl]. }
+  split; [reflexivity|]. split; [reflexivity|]. split.
+  { unfold aborts. rewrite !andb_true_iff. tauto. }
+  split.
+  - intros A. unfold nrun_result, nstep. rewrite A. repeat split; reflexivity.
+  - intros A. unfold nstep. now rewrite A.
+Qed.
+Print Assumptions C15_notification_step.
+
+(* (c) The variant, for every history: it is the code as it is run on the
+   history in which every aborted flush has lost its records ([effective_flush],
+   [blank]) — it loses exactly the batches whose report met a transport failure,
+   ordinary traffic flushed with them included — and it agrees with the code as
+   it is on every history without such a flush. *)
+Theorem C15_abort_variant_loses_exactly_the_aborted_batches : forall v nbs,
+  nstate v nbs = fstate true (map (effective_flush v) nbs) /\
+  (forall nb, effective_flush v nb = (if aborts v nb then blank (nb_f nb) else nb_f nb)) /\
+  (forall fb, b_recs (fb_batch (blank fb)) = [] /\
+              b_restart (fb_batch (blank fb)) = b_restart (fb_batch fb)) /\
+  (Forall (fun nb => aborts true nb = false) nbs -> nstate true nbs = nstate false nbs).
+Proof.
+  intros v nbs. split; [exact (nstate_effective v nbs)|].
+  split; [reflexivity|]. split; [intros fb; split; reflexivity|].
+  exact (variant_agrees_without_transport_errors nbs).
+Qed.
+Print Assumptions C15_abort_variant_loses_exactly_the_aborted_batches.
+
+(* (d) "Lose no traffic" in the presence of the notification step, without
+   restart: whatever the admin port did during whichever flush, the memory
+   counts every non-internal record of every flush and so does the file read
+   back after a final successful write. *)
+Definition C15_lose_no_traffic_with_notification (abort : bool) : Prop :=
+  forall nbs, let fbs := map nb_f nbs in
+    batches_ok (map fb_batch fbs) -> no_restart (map fb_batch fbs) ->
+    let y := nstate abort nbs in
+    count_where everywhere (sE (mem y)) = nrec (map fb_batch fbs) everywhere /\
+    (forall pre w, nbs = pre ++ [w] -> writes (nb_f w) = true ->
+       count_where everywhere (sE (restore (disk y))) = nrec (map fb_batch fbs) everywhere).
+
+Theorem C15_lose_no_traffic_whatever_the_notification_does :
+  C15_lose_no_traffic_with_notification false.
+Proof. exact lose_no_traffic_notify. Qed.
+Print Assumptions C15_lose_no_traffic_whatever_the_notification_does.
+
+(* three flushes while ENGINE_ADMIN_PORT is set: GET a/1 200, 503, 201 with the
+   engine up; 200, 502, 200 while nothing listens on the admin port; 200, 404
+   with the engine up again (nothing to report in the last one) *)
+Definition nw_flush (rs : list rec) (port : bool) (o : nout) : nbatch :=
+  mkNB (fw_flush rs false false) port o.
+Definition nw_recs2 : list rec :=
+  [demo_rec [97; 47; 49] 200 1700000004123 []; demo_rec [97; 47; 49] 502 1700000005123 [116];
+   demo_rec [97; 47; 50] 200 1700000006123 [116]].
+Definition nw_witness_with (port : bool) (o : nout) : list nbatch :=
+  [ nw_flush [demo_rec [97; 47; 49] 200 1700000001123 []; demo_rec [97; 47; 49] 503 1700000002123 [];
+              demo_rec [97; 47; 49] 201 1700000003123 []] port NDelivered;
+    nw_flush nw_recs2 port o;
+    nw_flush [demo_rec [97; 47; 50] 200 1700000007123 []; demo_rec [97; 47; 49] 404 1700000008123 []]
+             port NDelivered ].
+Definition nw_witness : list nbatch := nw_witness_with true NUnreachable.
+
+(* The variant loses the whole second batch (the 502 and the two ordinary
+   records flushed with it): 5, not 8. *)
+Theorem C15_lose_no_traffic_abort_on_failed_notification_refuted :
+  ~ C15_lose_no_traffic_with_notification true.
+Proof.
+  intros F.
+  assert (O : batches_ok (map fb_batch (map nb_f nw_witness)))
+    by (vm_compute; repeat constructor; discriminate).
+  assert (N : no_restart (map fb_batch (map nb_f nw_witness))) by (vm_compute; repeat constructor).
+  destruct (F nw_witness O N) as [M _].
+  vm_compute in M. discriminate M.
+Qed.
+Print Assumptions C15_lose_no_traffic_abort_on_failed_notification_refuted.
+
+(* Non-vacuity.  Under the code as it is the witness keeps all 8 records in
+   memory and in the file read back, Run returns nil three times and a report is
+   made during the first two flushes; under the variant Run fails in the second
+   flush, memory and file count 5 and the 502 is gone.  The variant is harmless
+   when the engine answers (200 or 404), when the connection is lost in a flush
+   with nothing to report, or when the port is not configured; a lost connection
+   is as bad as a refused one.  With a restart after the aborted flush the loss
+   survives it. *)
+Example C15_nw_witness_runs :
+  map reports nw_witness = [true; true; false] /\
+  map (fun nb => length (reported nb)) nw_witness = [1; 1; 0]%nat /\
+  map (nrun_result false) nw_witness = [NRunOk; NRunOk; NRunOk] /\
+  count_where everywhere (sE (mem (nstate false nw_witness))) = 8 /\
+  count_where everywhere (sE (restore (disk (nstate false nw_witness)))) = 8 /\
+  map (nrun_result true) nw_witness = [NRunOk; NRunNotifyError; NRunOk] /\
+  count_where everywhere (sE (mem (nstate true nw_witness))) = 5 /\
+  count_where everywhere (sE (restore (disk (nstate true nw_witness)))) = 5 /\
+  count_where everywhere (sE (mem (nstate true (nw_witness_with true NRejected)))) = 8 /\
+  count_where everywhere (sE (mem (nstate true (nw_witness_with true NDelivered)))) = 8 /\
+  count_where everywhere (sE (mem (nstate true (nw_witness_with false NUnreachable)))) = 8 /\
+  count_where everywhere (sE (mem (nstate true (nw_witness_with true NBroken)))) = 5 /\
+  count_where everywhere
+    (sE (mem (nstate true (nw_witness ++ [nw_flush [] true NBroken])))) = 5 /\
+  count_where everywhere
+    (sE (mem (nstate true (nw_witness ++ [mkNB (fw_flush [] true false) true NDelivered])))) = 5 /\
+  count_where everywhere
+    (sE (mem (nstate false (nw_witness ++ [mkNB (fw_flush [] true false) true NDelivered])))) = 8 /\
+  Forall (fun nb => aborts true nb = false) (nw_witness_with true NRejected) /\
+  map (aborts true) nw_witness = [false; true; false].
+Proof. vm_compute. repeat split; try reflexivity; repeat constructor. Qed.
+
+Example C15_nw_witness_status_counts :
+  map (fun e => (snd (fst e), snd e)) (sES (mem (nstate false nw_witness)))
+    = [(200, 2); (503, 1); (201, 1); (502, 1); (200, 2); (404, 1)] /\
+  map (fun e => (snd (fst e), snd e)) (sES (mem (nstate true nw_witness)))
+    = [(200, 1); (503, 1); (201, 1); (200, 1); (404, 1)].
+Proof. vm_compute. split; reflexivity. Qed.
